@@ -5,7 +5,7 @@ From Utp Require Import Base.Prelude Wire.SeqNr Wire.Header Rtt.Rtte Rtt.Rtte_Pr
   Tx.Segments Conn.Recovery Conn.Msg Conn.VSockRec Conn.VSock Conn.VSockRun Conn.VObs
   Conn.VSock_Lemmas Conn.VSock_LemmasTx Conn.VSock_LemmasStep Conn.VSock_LemmasTimers
   Conn.VSock_LemmasPipe Conn.C17_StepLemmas Conn.C07_Proofs Conn.C05_Pred Conn.C06_Pred Conn.C0506_Pred2 Conn.C05_Pred3
-  Conn.C05_Proofs Conn.C05_StepLemmas Conn.C05_Segs Conn.C05_Walk Conn.C05_StepZw
+  Conn.C05_Proofs Conn.C05_Flight Conn.C05_StepLemmas Conn.C05_Segs Conn.C05_Walk Conn.C05_StepZw Conn.C05_StepWin
   Conn.C10_Pred Conn.VSock_Inv Conn.C10_Proofs Conn.C05_Refuted.
 
 (* ------------------------------------------------------------------ lists *)
@@ -202,6 +202,112 @@ Proof.
   intros mk c s0 ops Hisn H0.
   apply (ftrace_forallb_live cci (fun s => ti s /\ C05_Segs.sp s /\ optc c s)).
   - intros s o (H1 & H2 & H3). apply c05_zero_window_strict_or_d16_open_step; assumption.
+  - intros s o (H1 & H2 & H3) Hl. split; [apply ti_vstep; exact H1|].
+    split; [apply sp_vstep_live; assumption|apply optc_vstep; exact H3].
+  - split; [eapply ti_vsock_new; exact H0|]. split; [eapply sp_vsock_new; [exact Hisn|exact H0]|eapply optc_vsock_new; exact H0].
+Qed.
+
+(* ================================================================== the window clause
+   c05_window_ok2 (the clause as intended) and c05_window_ok (as written) under the guards c05_win_guard *)
+Lemma fflight_fseg : forall (l : list seg) n, fflight (firstn n (map fseg_of l)) = FLp l n.
+Proof.
+  unfold FLp. induction l as [|g r IH]; intros [|n]; cbn [map firstn fflight flight_sum]; try reflexivity.
+  rewrite IH. unfold fseg_of. cbn [fg_delivered fg_size]. reflexivity.
+Qed.
+
+Lemma plen_sum_app a b : plen_sum (a ++ b) = plen_sum a + plen_sum b.
+Proof. induction a as [|x xs IH]; cbn [app plen_sum]; lia. Qed.
+
+Lemma plen_sum_rev l : plen_sum (rev l) = plen_sum l.
+Proof. induction l as [|x xs IH]; [reflexivity|]. cbn [rev plen_sum]. rewrite plen_sum_app, IH. cbn [plen_sum]. lia. Qed.
+
+Lemma plen_sum_data (l : list packet) : plen_sum (map fpacket_of (filter is_data l)) = data_bytes (filter is_data l).
+Proof.
+  induction l as [|p r IH]; [reflexivity|]. cbn [filter]. destruct (is_data p) eqn:E; [|exact IH].
+  cbn [map plen_sum data_bytes]. rewrite IH. unfold is_data in E. destruct (ch_type (p_hdr p)); try discriminate.
+  reflexivity.
+Qed.
+
+Lemma plen_sum_nonneg l : 0 <= plen_sum (map fpacket_of l).
+Proof. induction l as [|p r IH]; cbn [map plen_sum fpacket_of fq_plen]; lia. Qed.
+
+Theorem c05_window_ok2_step : forall cfg (s : vsock) o,
+  ti s -> C05_Segs.sp s -> optc cfg s ->
+  c05_window_ok2 cfg (fstep_of cci s o) = true /\ c05_window_ok_g cfg (fstep_of cci s o) = true.
+Proof.
+  intros cfg s o Hti Hsp Hopt.
+  destruct o; try (unfold c05_window_ok2, c05_window_ok_g; rewrite fstep_of_event; split; reflexivity).
+  destruct (poll cci (VSockRec.set_sends s script)) as [s' r] eqn:E.
+  unfold c05_window_ok2, c05_window_ok_g, c05_window_ok.
+  rewrite (fstep_of_poll cci s script s' r E). cbn [fs_event fs_result].
+  destruct r; try (split; reflexivity).
+  destruct (c05_win_guard cfg _) eqn:G; [|split; reflexivity].
+  unfold c05_win_guard, post_open in G. cbn [fs_pre fs_post fs_now] in G.
+  rewrite phase_recovering_fp in G.
+  cbn [fp_of_vsock f_t_retransmit f_rto_retx f_segs f_last_sent_seq_nr f_snd_una f_state] in G.
+  repeat (apply andb_true_iff in G; destruct G as [G ?]).
+  rename H into Gd, H0 into Gl2, H1 into Gl1, H2 into Glen, H3 into Grec, H4 into Grto, H5 into Gexp.
+  apply andb_true_iff in Gd. destruct Gd as [Gd1 Gd2].
+  apply negb_true_iff in Gexp, Grec, G. apply Z.eqb_eq in Grto.
+  rewrite map_length in Glen.
+  destruct (poll_pframe0 cci _ _ _ E) as (Po & Pe & _).
+  cbn [v_env_now VSockRec.set_sends] in Pe. rewrite Pe in Gexp.
+  assert (Hsp' : C05_Segs.sp s') by (eapply poll_pending_sp; eauto).
+  assert (Hu : 0 <= ss_snd_una (v_segs s') < M16) by apply Hsp'.
+  destruct (poll_pending_xw cci s script s' (ss_snd_una (v_segs s')) Hti Hsp Gexp ltac:(lia) Hu ltac:(lia) E)
+    as (_ & HJ & HW).
+  cbn [fs_post]. rewrite phase_recovering_fp.
+  cbn [fp_of_vsock f_rto_retx f_segs f_snd_una f_cc_window f_last_remote_window].
+  rewrite Grto, Grec. cbn [Z.eqb negb andb].
+  replace (Z.of_nat (length (map fseg_of (ss_segs (v_segs s')))) <=? 1024) with true
+    by (symmetry; rewrite map_length; apply Z.leb_le; lia).
+  rewrite data_filter_out.
+  destruct HW as [HW|(k' & Hk & HW)].
+  { exfalso. unfold SC in HW. unfold optc in Hopt. rewrite Po in HW. cbn [v_opts VSockRec.set_sends] in HW.
+    rewrite Hopt in HW. congruence. }
+  destruct HW as [HW|(idxs & c & Hc & H1 & H2 & H3)]; [unfold RECb in HW; congruence|].
+  assert (Fi : Forall (fun i => (i < 1024)%nat) idxs).
+  { eapply Forall_impl; [|exact H2]. intros i Hi. cbn beta in Hi. unfold sgs in Hi. lia. }
+  destruct (H3 eq_refl Fi) as (A & B0 & C0).
+  unfold seqs_of in H1.
+  destruct (rev (dout s')) as [|p1 later] eqn:Erev; [split; reflexivity|].
+  destruct idxs as [|i1 r]; [discriminate|]. cbn [map] in H1. injection H1 as Hp1 _.
+  destruct C0 as (_ & C2 & C3).
+  cbn [map fpacket_of fq_hdr].
+  assert (Hi1 : (i1 < 1024)%nat) by (inversion Fi; assumption).
+  assert (Ek : seq_sub (ch_seq (p_hdr p1)) (ss_snd_una (v_segs s')) = Z.of_nat i1).
+  { rewrite Hp1. apply seq_sub_seq_at_u; [exact Hu|lia]. }
+  rewrite Ek, Nat2Z.id, fflight_fseg.
+  assert (Hsum : plen_sum (map fpacket_of (p1 :: later)) = dby s').
+  { rewrite <- Erev, <- plen_sum_rev, <- map_rev, rev_involutive. unfold dby, dout. apply plen_sum_data. }
+  unfold Wn, sgs in C3.
+  split.
+  - change (fpacket_of p1 :: map fpacket_of later) with (map fpacket_of (p1 :: later)). rewrite Hsum.
+    unfold c05_window_core. apply Z.leb_le. lia.
+  - unfold c05_window_core. apply Z.leb_le.
+    pose proof (plen_sum_nonneg later). cbn [map plen_sum] in Hsum.
+    assert (0 <= fq_plen (fpacket_of p1)) by (cbn [fpacket_of fq_plen]; lia). lia.
+Qed.
+
+Theorem c05_window_ok2_trace : forall mk c (s0 : vsock) ops,
+  0 <= vc_isn c < M16 -> vsock_new cci mk c = Some s0 ->
+  forallb (c05_window_ok2 c) (ftrace cci s0 ops) = true.
+Proof.
+  intros mk c s0 ops Hisn H0.
+  apply (ftrace_forallb_live cci (fun s => ti s /\ C05_Segs.sp s /\ optc c s)).
+  - intros s o (H1 & H2 & H3). apply c05_window_ok2_step; assumption.
+  - intros s o (H1 & H2 & H3) Hl. split; [apply ti_vstep; exact H1|].
+    split; [apply sp_vstep_live; assumption|apply optc_vstep; exact H3].
+  - split; [eapply ti_vsock_new; exact H0|]. split; [eapply sp_vsock_new; [exact Hisn|exact H0]|eapply optc_vsock_new; exact H0].
+Qed.
+
+Theorem c05_window_ok_g_trace : forall mk c (s0 : vsock) ops,
+  0 <= vc_isn c < M16 -> vsock_new cci mk c = Some s0 ->
+  forallb (c05_window_ok_g c) (ftrace cci s0 ops) = true.
+Proof.
+  intros mk c s0 ops Hisn H0.
+  apply (ftrace_forallb_live cci (fun s => ti s /\ C05_Segs.sp s /\ optc c s)).
+  - intros s o (H1 & H2 & H3). apply c05_window_ok2_step; assumption.
   - intros s o (H1 & H2 & H3) Hl. split; [apply ti_vstep; exact H1|].
     split; [apply sp_vstep_live; assumption|apply optc_vstep; exact H3].
   - split; [eapply ti_vsock_new; exact H0|]. split; [eapply sp_vsock_new; [exact Hisn|exact H0]|eapply optc_vsock_new; exact H0].
